@@ -63,15 +63,28 @@ def run_one(m, keep=False):
 
 def main():
     idx = json.load(open(os.path.join(VERIF, "mutants", "index.json")))
-    only = sys.argv[1:]
+    # behaviour-preserving refactorings (benign/<id>/patch.diff): every check must stay silent
+    bdir = os.path.join(VERIF, "benign")
+    if os.path.isdir(bdir):
+        for b in sorted(os.listdir(bdir)):
+            if os.path.exists(os.path.join(bdir, b, "patch.diff")):
+                idx.append({"patch": "benign/%s/patch.diff" % b, "properties": ["C%02d" % i for i in range(1, 21)], "expect": "silent"})
+    args = sys.argv[1:]
+    jobs = 1
+    if "-j" in args:
+        i = args.index("-j")
+        jobs = int(args[i + 1])
+        args = args[:i] + args[i + 2:]
+    only = args
+    todo = [m for m in idx if not only or any(o in m["patch"] or o in m["properties"] for o in only)]
     bad = 0
-    for m in idx:
-        if only and not any(o in m["patch"] or o in m["properties"] for o in only):
-            continue
-        good, msg = run_one(m)
-        print("%s %s %s %s" % ("PASS" if good else "FAIL", m["patch"], ",".join(m["properties"]), msg))
-        if not good:
-            bad += 1
+    from concurrent.futures import ThreadPoolExecutor
+    with ThreadPoolExecutor(max_workers=jobs) as ex:
+        for m, (good, msg) in zip(todo, ex.map(run_one, todo)):
+            print("%s %s %s %s" % ("PASS" if good else "FAIL", m["patch"], ",".join(m["properties"]) if len(m["properties"]) < 20 else "ALL", msg), flush=True)
+            if not good:
+                bad += 1
+    print("%d entries, %d failed" % (len(todo), bad))
     return 1 if bad else 0
 
 
